@@ -11,6 +11,8 @@
 -/
 import Vita.C20.Sim
 import Vita.C20.Legacy
+import Vita.C20.Denote
+import Vita.C20.Gen
 
 namespace Vita.C20
 
@@ -19,67 +21,208 @@ variable {α : Type}
 /-- For every operation sequence the small_vector machine runs without any fault, produces the
     observations of the list machine (`operator[]`, comparisons), and every vector whose contents
     the reference specifies holds exactly those elements. -/
-theorem sv_refines_list [DecidableEq α] (c : Cfg α) (hg : ∀ n, n < c.growth n) (lt : α → α → Bool)
+theorem sv_refines_list (c : Cfg α) (hg : ∀ n, n < c.growth n) (eq lt : α → α → Bool)
     (ops : List (Bool × Op α)) (sp : SpecM α) (os : List (Obs α))
-    (hs : specRun c lt SpecM.init ops = some (sp, os)) :
-    ∃ m, run c lt (Mach.init c) ops = .ok (m, os) ∧
+    (hs : specRun c eq lt SpecM.init ops = some (sp, os)) :
+    ∃ m, run c eq lt (Mach.init c) ops = .ok (m, os) ∧
       (∀ l, sp.a = some l → contents m.a = .ok l) ∧ (∀ l, sp.b = some l → contents m.b = .ok l) := by
-  obtain ⟨m, h1, h2⟩ := run_sim hg lt ops (sim_init c) sp os hs
+  obtain ⟨m, h1, h2⟩ := run_sim hg eq lt ops (sim_init c) sp os hs
   exact ⟨m, h1, fun l e => contents_ok (h2.1.2 l e), fun l e => contents_ok (h2.2.2 l e)⟩
 
 /-- No lifetime fault: no assignment to raw storage, no construction over a live object, no
     destruction of a non-object / double destruction, no read of an unconstructed or moved-from
     element, no out-of-bounds write, no block freed with live objects, no dangling reference. -/
-theorem sv_no_lifetime_fault [DecidableEq α] (c : Cfg α) (hg : ∀ n, n < c.growth n) (lt : α → α → Bool)
-    (ops : List (Bool × Op α)) (hs : (specRun c lt SpecM.init ops).isSome = true) (f : Fault) :
-    run c lt (Mach.init c) ops ≠ .error f := by
-  cases h : specRun c lt SpecM.init ops with
+theorem sv_no_lifetime_fault (c : Cfg α) (hg : ∀ n, n < c.growth n) (eq lt : α → α → Bool)
+    (ops : List (Bool × Op α)) (hs : (specRun c eq lt SpecM.init ops).isSome = true) (f : Fault) :
+    run c eq lt (Mach.init c) ops ≠ .error f := by
+  cases h : specRun c eq lt SpecM.init ops with
   | none => rw [h] at hs; cases hs
   | some q =>
     obtain ⟨sp, os⟩ := q
-    obtain ⟨m, h1, _⟩ := run_sim hg lt ops (sim_init c) sp os h
+    obtain ⟨m, h1, _⟩ := run_sim hg eq lt ops (sim_init c) sp os h
     rw [h1]; intro e; cases e
 
 /-- Destroying both vectors after any operation sequence releases every block and destroys every
     object exactly once (also for moved-from vectors). -/
-theorem sv_no_leak_at_end [DecidableEq α] (c : Cfg α) (hg : ∀ n, n < c.growth n) (lt : α → α → Bool)
-    (ops : List (Bool × Op α)) (hs : (specRun c lt SpecM.init ops).isSome = true) :
-    ∃ m os, run c lt (Mach.init c) ops = .ok (m, os) ∧ finish c m = .ok () := by
-  cases h : specRun c lt SpecM.init ops with
+theorem sv_no_leak_at_end (c : Cfg α) (hg : ∀ n, n < c.growth n) (eq lt : α → α → Bool)
+    (ops : List (Bool × Op α)) (hs : (specRun c eq lt SpecM.init ops).isSome = true) :
+    ∃ m os, run c eq lt (Mach.init c) ops = .ok (m, os) ∧ finish c m = .ok () := by
+  cases h : specRun c eq lt SpecM.init ops with
   | none => rw [h] at hs; cases hs
   | some q =>
     obtain ⟨sp, os⟩ := q
-    obtain ⟨m, h1, h2⟩ := run_sim hg lt ops (sim_init c) sp os h
+    obtain ⟨m, h1, h2⟩ := run_sim hg eq lt ops (sim_init c) sp os h
     refine ⟨m, os, h1, ?_⟩
     simp only [finish, dtor_spec h2.1.1, dtor_spec h2.2.1, bind, Except.bind]
 
 /-- A moved-from vector stays well formed (it can be assigned to, cleared, destroyed). -/
-theorem sv_moved_from_wf [DecidableEq α] (c : Cfg α) (hg : ∀ n, n < c.growth n) (lt : α → α → Bool)
+theorem sv_moved_from_wf (c : Cfg α) (hg : ∀ n, n < c.growth n) (eq lt : α → α → Bool)
     (ops : List (Bool × Op α)) (sp : SpecM α) (os : List (Obs α))
-    (hs : specRun c lt SpecM.init ops = some (sp, os)) :
-    ∃ m, run c lt (Mach.init c) ops = .ok (m, os) ∧ WF c m.a ∧ WF c m.b := by
-  obtain ⟨m, h1, h2⟩ := run_sim hg lt ops (sim_init c) sp os hs
+    (hs : specRun c eq lt SpecM.init ops = some (sp, os)) :
+    ∃ m, run c eq lt (Mach.init c) ops = .ok (m, os) ∧ WF c m.a ∧ WF c m.b := by
+  obtain ⟨m, h1, h2⟩ := run_sim hg eq lt ops (sim_init c) sp os hs
   exact ⟨m, h1, h2.1.1, h2.2.1⟩
 
 /-- the growth policy of the code satisfies the only hypothesis about it -/
 theorem growth_15_ok (n : Nat) : n < (if n > 1 then 3 * n / 2 else n + 1) := by
   split <;> omega
 
+/-- The reference `==` IS the element-wise `T::operator==` (never a comparison of representations):
+    `vecEq eq la lb` holds exactly when the sizes agree and `eq` holds at every index. -/
+theorem vecEq_elementwise (eq : α → α → Bool) (la lb : List α) :
+    vecEq eq la lb = true ↔
+      la.length = lb.length ∧ ∀ i (h1 : i < la.length) (h2 : i < lb.length), eq la[i] lb[i] = true := by
+  unfold vecEq
+  induction la generalizing lb with
+  | nil => cases lb <;> simp [allEq]
+  | cons a as ih =>
+    cases lb with
+    | nil => simp [allEq]
+    | cons b bs =>
+      have ih' := ih bs
+      simp only [List.length_cons, allEq, Bool.and_eq_true, beq_iff_eq, Nat.add_right_cancel_iff] at ih' ⊢
+      constructor
+      · rintro ⟨hl, he, ha⟩
+        have := ih'.1 ⟨hl, ha⟩
+        refine ⟨hl, ?_⟩
+        intro i h1 h2
+        cases i with
+        | zero => simpa using he
+        | succ i => simpa using this.2 i (by omega) (by omega)
+      · rintro ⟨hl, hall⟩
+        refine ⟨hl, by simpa using hall 0 (by omega) (by omega), ?_⟩
+        refine (ih'.2 ⟨hl, fun i h1 h2 => ?_⟩).2
+        have := hall (i + 1) (by omega) (by omega)
+        simpa only [List.getElem_cons_succ] using this
+
+/-- The element equality really is a parameter: for an element type whose `operator==` is not the
+    identity of representations (here `x == y ⇔ x ≡ y mod 10`, and an "unordered" value 7 that is not
+    even equal to itself, like a NaN) the operators differ from a comparison of the stored
+    representations in both directions. -/
+theorem operator_eq_is_not_representation_eq :
+    let eq : Nat → Nat → Bool := fun x y => x != 7 && y != 7 && x % 10 == y % 10
+    vecEq eq [1, 12] [11, 2] = true ∧ ([1, 12] : List Nat) ≠ [11, 2] ∧
+    vecEq eq [7] [7] = false ∧ vecCmp eq (fun a b => decide (a < b)) .ne [7] [7] = true := by
+  decide
+
+/-! ### tie to the source: the skeletons extracted from the clang AST (Gen.lean, regenerated on every run)
+    are the skeletons the hand model implements (Skeleton.lean), function by function -/
+
+/-- no function was added to / removed from small_vector.{h,tcc} -/
+theorem functions_known : Gen.functions = Skeleton.functions := by rfl
+
+/-- constructors, destructor, `clear`, `free_heap_memory` -/
+theorem skeleton_ctor_dtor :
+    Gen.ctorNSk = Skeleton.ctorNSk ∧ Gen.ctorNXSk = Skeleton.ctorNXSk ∧
+    Gen.ctorListSk = Skeleton.ctorListSk ∧ Gen.ctorCopySk = Skeleton.ctorCopySk ∧
+    Gen.ctorMoveSk = Skeleton.ctorMoveSk ∧ Gen.dtorSk = Skeleton.dtorSk ∧
+    Gen.clearSk = Skeleton.clearSk ∧
+    Gen.free_heap_memorySk = Skeleton.free_heap_memorySk := by
+  repeat' constructor
+
+/-- both assignment operators: conditions (`this != &rhs`, `needs_memory`, `is_trivially…`,
+    `local_storage_used()`, `n <= S`) and the primitive calls of every branch -/
+theorem skeleton_assign :
+    Gen.assignCopySk = Skeleton.assignCopySk ∧
+    Gen.assignMoveSk = Skeleton.assignMoveSk := by
+  repeat' constructor
+
+/-- `push_back`, `emplace_back`, `append`, `insert` (append case, empty range, shift / overwrite strategy) -/
+theorem skeleton_insert :
+    Gen.push_backSk = Skeleton.push_backSk ∧ Gen.emplace_backSk = Skeleton.emplace_backSk ∧
+    Gen.appendSk = Skeleton.appendSk ∧ Gen.insertSk = Skeleton.insertSk := by
+  repeat' constructor
+
+/-- `resize`, `reserve`, `grow(n)`, `grow()` -/
+theorem skeleton_resize :
+    Gen.resizeSk = Skeleton.resizeSk ∧ Gen.reserveSk = Skeleton.reserveSk ∧
+    Gen.growNSk = Skeleton.growNSk ∧ Gen.growSk = Skeleton.growSk := by
+  repeat' constructor
+
+/-- the inline accessors of the header -/
+theorem skeleton_accessors :
+    Gen.indexConstSk = Skeleton.indexConstSk ∧ Gen.indexSk = Skeleton.indexSk ∧
+    Gen.dataSk = Skeleton.dataSk ∧ Gen.dataConstSk = Skeleton.dataConstSk ∧
+    Gen.beginSk = Skeleton.beginSk ∧ Gen.endSk = Skeleton.endSk ∧
+    Gen.cbeginSk = Skeleton.cbeginSk ∧ Gen.cendSk = Skeleton.cendSk ∧
+    Gen.beginConstSk = Skeleton.beginConstSk ∧ Gen.endConstSk = Skeleton.endConstSk ∧
+    Gen.rbeginSk = Skeleton.rbeginSk ∧ Gen.rendSk = Skeleton.rendSk ∧
+    Gen.rbeginConstSk = Skeleton.rbeginConstSk ∧ Gen.rendConstSk = Skeleton.rendConstSk ∧
+    Gen.sizeSk = Skeleton.sizeSk ∧ Gen.capacitySk = Skeleton.capacitySk ∧
+    Gen.max_sizeSk = Skeleton.max_sizeSk ∧ Gen.emptySk = Skeleton.emptySk ∧
+    Gen.frontSk = Skeleton.frontSk ∧ Gen.frontConstSk = Skeleton.frontConstSk ∧
+    Gen.backSk = Skeleton.backSk ∧ Gen.backConstSk = Skeleton.backConstSk ∧
+    Gen.local_storage_usedSk = Skeleton.local_storage_usedSk := by
+  repeat' constructor
+
+/-- the free functions: `destroy_range`, `uninitialized_copy/move` and the six relational operators
+    (`==` is `size() == size() && std::equal`, i.e. the element-wise `T::operator==`) -/
+theorem skeleton_free_functions :
+    Gen.destroy_rangeSk = Skeleton.destroy_rangeSk ∧
+    Gen.uninitialized_copySk = Skeleton.uninitialized_copySk ∧
+    Gen.uninitialized_moveSk = Skeleton.uninitialized_moveSk ∧
+    Gen.opEqSk = Skeleton.opEqSk ∧ Gen.opNeSk = Skeleton.opNeSk ∧
+    Gen.opLtSk = Skeleton.opLtSk ∧ Gen.opGtSk = Skeleton.opGtSk ∧
+    Gen.opGeSk = Skeleton.opGeSk ∧ Gen.opLeSk = Skeleton.opLeSk := by
+  repeat' constructor
+
+/-- For `resize` the link between the extracted skeleton and the model is semantic: the skeleton
+    read from the AST, executed with the statement meanings `resizeSem` (each condition / call mapped
+    to a storage primitive), IS the model's `resize` — for every state and every `n`. -/
+theorem resize_skeleton_denotes_model (c : Cfg α) (n : Nat) (s : SV α) :
+    execL (resizeSem c n) Gen.resizeSk s = resize c s n := by
+  have h : Gen.resizeSk = Skeleton.resizeSk := by rfl
+  rw [h]; exact resize_denotes_aux c n s
+
+/-- The same for `operator=(const small_vector &rhs)` (`this != &rhs`): the extracted skeleton, executed on
+    the local state (`*this`, `n`, `needs_memory`, `assigned`) with the meanings `assignSem`, is the
+    model's `assignCopy` for every well-formed destination and every readable source. -/
+theorem assign_skeleton_denotes_model (c : Cfg α) {dst src : SV α} {els : List (Slot α)} (hd : Rep c dst els)
+    {vals : List α} (hv : readRange src.buf 0 src.size = .ok vals) :
+    (execL (assignSem c vals) Gen.assignCopySk ⟨dst, 0, false, 0⟩ >>= fun st => pure st.d)
+      = assignCopy c dst src := by
+  have h : Gen.assignCopySk = Skeleton.assignCopySk := by rfl
+  rw [h]; exact assignCopy_denotes_aux c hd hv
+
+/-- call-site layer: every small_vector member (constructor, operator) that some translation unit of
+    the library uses — through fitness_t (`small_vector<double,1>`), the gene argument vectors
+    (`small_vector<locus,K>`, `small_vector<packed_index_t,K>`) or the offspring vectors of
+    evolution_recombination.h (`small_vector<T,1>`) — is covered by the model -/
+theorem users_covered : ∀ m ∈ Gen.usedKeys, m ∈ Skeleton.covered.map Prod.fst := by decide
+
 /-! ### the statements are not vacuous -/
 
 def cfgS (t : Bool) : Cfg Nat := { S := 2, trivial := t, growth := fun n => if n > 1 then 3 * n / 2 else n + 1, dflt := 0 }
+
+/-- an element equality that is not structural: equal modulo 10, and 7 is "NaN" -/
+def eqMod : Nat → Nat → Bool := fun x y => x != 7 && y != 7 && x % 10 == y % 10
 
 def demoOps : List (Bool × Op Nat) :=
   [(false, .pushBack (.val 5)), (false, .pushBack (.val 6)), (false, .pushBack (.self 0)),
    (false, .insert 1 [7, 8, 9]), (false, .insert 2 []), (true, .ctorList [1]), (true, .insert 0 [2, 3]),
    (false, .reserve 9), (false, .assignCopy), (true, .assignMove), (false, .assignCopy), (false, .resize 5),
    (true, .getAt 2),
-   (true, .cmpLt), (false, .clear)]
+   (true, .cmp .lt), (false, .setBack 11), (true, .ctorList [12, 13, 1, 10, 21]), (false, .cmp .eq),
+   (false, .cmpMixed 7 .ne true),
+   (true, .ctorList [7]), (false, .ctorCopy), (false, .cmp .eq), (false, .cmpMixed 1 .ge false),
+   (true, .front), (true, .iterRev), (false, .iterFwd), (false, .empty), (false, .size), (false, .capOk),
+   (false, .setData 0 4), (false, .dataAt 0), (false, .back), (false, .setFront 3), (false, .maxSize),
+   (false, .clear)]
 
-example : specRun (cfgS false) (fun a b => decide (a < b)) SpecM.init demoOps =
-    some (⟨some [], some [2, 3, 1]⟩,
-      [.none, .none, .none, .none, .none, .none, .none, .none, .none, .none, .none, .none, .val 1, .bool true, .none]) := by
+example : specRun (cfgS false) eqMod (fun a b => decide (a < b)) SpecM.init demoOps =
+    some (⟨some [], some [7]⟩,
+      [.none, .none, .none, .nat 1, .nat 2, .none, .nat 0, .none, .none, .none, .none, .none, .val 1,
+       .bool true, .none, .none, .bool true, .bool false,       -- [2,3,1,0,11] == [12,13,1,10,21]
+       .none, .none, .bool false, .bool true,                   -- [7] == [7] is false
+       .val 7, .list [7], .list [7], .bool false, .nat 1, .bool true,
+       .none, .val 4, .val 4, .none, .nat 18446744073709551615,
+       .none]) := by
   rfl
+
+/-- the hypotheses of `assign_skeleton_denotes_model` are inhabited (two freshly constructed vectors) -/
+example : ∃ els vals, Rep (cfgS false) (Mach.init (cfgS false)).a els ∧
+    readRange (Mach.init (cfgS false)).b.buf 0 (Mach.init (cfgS false)).b.size = .ok vals :=
+  ⟨_, [], (sim_init (cfgS false)).1.2 [] rfl, rfl⟩
 
 /-! ### legacy: the defects of the pinned tree (b4a6232), as witnesses against the old code paths -/
 
